@@ -409,6 +409,7 @@ func (f *Frame) globalRef(g *ssa.Global) Term {
 			f.vc.Lines = append(f.vc.Lines, "(assert (distinct "+joinStrings(f.vc.globals, " ")+"))")
 		}
 	}
+	f.tableFacts(g, Term{name, SInt})
 	return Term{name, SInt}
 }
 
